@@ -1,6 +1,7 @@
 import FV.Proofs.InitAlloc
 import FV.Proofs.InitAllocDie
 import FV.Proofs.InitAllocGlb
+import FV.Proofs.InitAllocSplit
 import FV.Props.C18
 /-
   C03 — Initial allocation equals the exact geometric overlap.
@@ -40,8 +41,11 @@ import FV.Props.C18
     cells as hypotheses.  The last section (`… _on_die`) discharges them from C01 (`FV.C01.die_complete`, `die_sound`)
     for every `ValidDie` input and every accepted pick sequence, through the adapter stated in
     `FV/Proofs/InitAllocDie.lean` (`refinableOf out = specialized ++ ground`, `netFixedRects mods` =
-    `netlist.fixed_rectangles()`).  Dies refined first with `split_refinable_regions` are covered by the cutting
-    theorems (`allocated_area_of_dissection`), not by the `_on_die` ones.
+    `netlist.fixed_rectangles()`).  Dies refined first with `split_refinable_regions` / `initial_grid` ("refined or
+    not" of the quantifier) are covered by `allocated_area_of_refines`, `allocated_area_on_split_die`,
+    `allocated_area_on_grid_die`: C11 delivers `SplitRects.Refines` (one exact tiling per region, cuts not recorded),
+    which is weaker than the guillotine `Dissection` but suffices because overlap is additive over ANY exact tiling
+    (`tiling_overlap`); `Dissection` / `allocated_area_of_dissection` remain for cut sequences given explicitly.
 -/
 namespace FV.C03
 open FV FV.Rect FV.InitAlloc
@@ -660,6 +664,147 @@ theorem allocated_area_on_die (sqrt : α → α) (st : Option (α × α)) (doc :
     (by rw [hnf, ← hall, hex.area, hW, hH]; rfl)
   rw [hres, hbe, hfe]
 
+/-! ### refined dies (bridge to C11): `split_refinable_regions`, `initial_grid` -/
+
+/-- **allocated_area_of_refines**: let the refinable cells handed to the allocation be a refinement, in the sense of
+    C11 (`SplitRects.Refines`: up to order, one exact tiling per region), of regions `R0` which together with the fixed
+    cells satisfy `FixedOK` (e.g. the regions of a valid die, `die_cells_ok`).  Then the refined cell list satisfies
+    `FixedOK` again (so `fixed_full` applies to the refined die), the returned cells that are not fixed modules' are
+    exactly the refined cells, and the area allocated to a non-fixed module is the area of its shape on `R0` —
+    refinement does not change it. -/
+theorem allocated_area_of_refines (sqrt : α → α) (εA : α) (iz : Bool) (mods : List (Module α))
+    (R0 refinable' fixed : List (Rect α)) (A : Allocation α)
+    (h : createInitialAllocation sqrt εA iz mods refinable' fixed = .ok A)
+    (hn : NetOK sqrt mods) (hc0 : CellsProper (R0 ++ fixed)) (hf0 : FixedOK mods (R0 ++ fixed))
+    (hfix : fixed = netFixedRects mods) (hunf : ∀ c ∈ R0, c.fixed = false)
+    (href : SplitRects.Refines R0 refinable') :
+    FixedOK mods (refinable' ++ fixed) ∧ CellsProper (refinable' ++ fixed) ∧
+    (A.cells.filter fun c => !c.rect.fixed).map (·.rect) = refinable' ∧
+    ∀ m ∈ mods, m.fixed = false →
+      allocatedSum A.cells m.name = (R0.map fun R => overlapSum R (shapeOf sqrt m)).sum := by
+  have hf' := fixedOK_of_refines mods R0 refinable' fixed hf0 hfix href
+  have hc' := cellsProper_of_refines R0 refinable' fixed hc0 href
+  have hu' := unflagged_of_refines R0 refinable' hunf href
+  have hnf := nonfixed_rects_eq sqrt εA iz mods refinable' fixed A h hn hc' hf' hfix hu'
+  refine ⟨hf', hc', hnf, ?_⟩
+  intro m hm hmf
+  rw [allocated_area_eq sqrt εA iz mods refinable' fixed A h hn hc' m hm hmf,
+    show (fun c : Cell α => overlapSum c.rect (shapeOf sqrt m)) =
+      (fun c => overlapSum c (shapeOf sqrt m)) ∘ (·.rect) from rfl, ← List.map_map, hnf]
+  exact refines_overlapSum R0 refinable' href (fun r hr => hc0 r (List.mem_append_left _ hr)) _ (hn.shape_nonneg hm)
+
+/-- **allocated_area_on_split_die**: a valid die (C01), refined with `split_refinable_regions(ratio, n)` (C11 model,
+    any fuel that returns), then `create_initial_allocation`: blockages and fixed cells are untouched, `FixedOK` holds
+    for the refined cells, the non-fixed cells of the result are the refined regions, and the area allocated to a
+    non-fixed module is given by the same input-only formula as for the unrefined die (`allocated_area_on_die`). -/
+theorem allocated_area_on_split_die (sqrt : α → α) (st : Option (α × α)) (doc : Die.YV α) (inp : Die.DieIn α)
+    (mods : List (Module α)) (hp : Die.parseDie doc = .ok inp)
+    (hεd : 0 ≤ (Die.mkEps sqrt st inp.W inp.H).1.d) (hεa : 0 ≤ (Die.mkEps sqrt st inp.W inp.H).1.a)
+    (hv : C01.ValidDie (Die.mkEps sqrt st inp.W inp.H).1.d inp (netFixedRects mods)) (picks : List Die.IRect)
+    (hacc : Die.coverAccept ((Die.gridOf (Die.mkEps sqrt st inp.W inp.H).1 inp (netFixedRects mods)).2.length - 1)
+      ((Die.gridOf (Die.mkEps sqrt st inp.W inp.H).1 inp (netFixedRects mods)).1.length - 1)
+      (Die.occ (Die.gridOf (Die.mkEps sqrt st inp.W inp.H).1 inp (netFixedRects mods)).1
+        (Die.gridOf (Die.mkEps sqrt st inp.W inp.H).1 inp (netFixedRects mods)).2
+        (Die.occRects inp (netFixedRects mods))) picks = true)
+    (hn : NetOK sqrt mods) (hrects : ∀ m ∈ mods, m.fixed = true → m.rects ≠ []) :
+    ∃ out, Die.dieModel sqrt st doc (netFixedRects mods) (some picks) =
+        .ok (out, (Die.mkEps sqrt st inp.W inp.H).1, (Die.mkEps sqrt st inp.W inp.H).2) ∧
+      ∀ (fuel : Nat) (ratio : α) (n : Nat) (d' : SplitRects.DieSt α),
+        SplitRects.splitRefinableRegions fuel (toDieSt out) ratio n = .ok d' →
+        d'.fixed = out.fixed ∧ d'.blockages = out.blockages ∧
+        SplitRects.Refines (refinableOf out) (SplitRects.floorplanningRectangles d').1 ∧
+        ∀ (εA : α) (iz : Bool) (A : Allocation α),
+          createInitialAllocation sqrt εA iz mods (SplitRects.floorplanningRectangles d').1 d'.fixed = .ok A →
+          FixedOK mods ((SplitRects.floorplanningRectangles d').1 ++ d'.fixed) ∧
+          (A.cells.filter fun c => !c.rect.fixed).map (·.rect) = (SplitRects.floorplanningRectangles d').1 ∧
+          ∀ m ∈ mods, m.fixed = false →
+            allocatedSum A.cells m.name =
+              ((shapeOf sqrt m).map fun r => (Die.dieRect inp.W inp.H).areaOverlap r -
+                ((Die.blockOf inp ++ netFixedRects mods).map fun b => b.areaOverlap r).sum).sum := by
+  obtain ⟨out, hrun, hfe, hbe, hW, hH, hcp, hunf, hfo, hex, hall⟩ :=
+    die_cells_ok sqrt st doc inp mods hp hεd hεa hv picks hacc hn hrects
+  obtain ⟨_, _, _, _, hWp, hHp, _⟩ := C01.parseDie_ok doc inp hp
+  refine ⟨out, hrun, ?_⟩
+  intro fuel ratio n d' hs
+  have hpos : C11.Proper (SplitRects.floorplanningRectangles (toDieSt out)).1 :=
+    fun r hr => hcp r (List.mem_append_left _ hr)
+  obtain ⟨href, _, _⟩ := C11.dieSplit_refines fuel (toDieSt out) d' ratio n hpos hs
+  obtain ⟨eb, ef, _, _⟩ := C11.dieSplit_spec fuel (toDieSt out) d' ratio n hs
+  have ef' : d'.fixed = out.fixed := ef
+  have eb' : d'.blockages = out.blockages := eb
+  refine ⟨ef', eb', href, ?_⟩
+  intro εA iz A hA
+  rw [ef'] at hA ⊢
+  obtain ⟨r1, _, r3, r4⟩ := allocated_area_of_refines sqrt εA iz mods (refinableOf out) _ out.fixed A hA hn hcp hfo
+    hfe hunf href
+  refine ⟨r1, r3, ?_⟩
+  intro m hm hmf
+  rw [r4 m hm hmf]
+  have hposa : ∀ c ∈ out.all, 0 ≤ c.w ∧ 0 ≤ c.h := by
+    intro c hc
+    rw [hall] at hc
+    rcases List.mem_append.mp hc with hc | hc
+    · have := hcp c (List.mem_append_left _ hc); exact ⟨le_of_lt this.1, le_of_lt this.2⟩
+    · rcases List.mem_append.mp hc with hc | hc
+      · rw [hbe] at hc
+        have hmem : c ∈ Die.occRects inp (netFixedRects mods) :=
+          List.mem_append_left _ (List.mem_append_right _ hc)
+        have := hv.pos c hmem; exact ⟨le_of_lt this.1, le_of_lt this.2⟩
+      · have := hcp c (List.mem_append_right _ hc); exact ⟨le_of_lt this.1, le_of_lt this.2⟩
+  have := tiling_formula (Die.dieRect inp.W inp.H) (refinableOf out) (out.blockages ++ out.fixed) (shapeOf sqrt m)
+    (by simp only [Die.dieRect]; exact ⟨le_of_lt hWp, le_of_lt hHp⟩)
+    (by rw [← hall]; exact hex.disjoint) (by rw [← hall]; exact hposa)
+    (by
+      rw [← hall]
+      intro c hc
+      have := hex.inside c hc
+      rw [hW, hH] at this
+      exact inside_dieRect inp.W inp.H c this)
+    (by rw [← hall, hex.area, hW, hH]; rfl) (hn.shape_nonneg hm)
+  rw [this, hbe, hfe]
+
+/-- **allocated_area_on_grid_die**: a die gridded with `initial_grid(nrows, ncols)` (C11 model; it only succeeds on a
+    clean die: no blockages, specialised regions or fixed modules; the outline `Rectangle(center, shape)` is not
+    flagged fixed): every cell of the result is a grid cell and the area allocated to a module is the area of its
+    shape inside the die outline. -/
+theorem allocated_area_on_grid_die (sqrt : α → α) (mods : List (Module α)) (d d' : SplitRects.DieSt α) (nr nc : Nat)
+    (hw : 0 < d.die.w) (hh : 0 < d.die.h) (hflag : d.die.fixed = false) (hfix : d.fixed = netFixedRects mods)
+    (hg : SplitRects.initialGrid d nr nc = .ok d')
+    (hn : NetOK sqrt mods) (hrects : ∀ m ∈ mods, m.fixed = true → m.rects ≠ [])
+    (εA : α) (iz : Bool) (A : Allocation α)
+    (hA : createInitialAllocation sqrt εA iz mods (SplitRects.floorplanningRectangles d').1 d'.fixed = .ok A) :
+    (SplitRects.floorplanningRectangles d').1.length = nr * nc ∧ d'.fixed = [] ∧
+    (A.cells.filter fun c => !c.rect.fixed).map (·.rect) = (SplitRects.floorplanningRectangles d').1 ∧
+    ∀ m ∈ mods, allocatedSum A.cells m.name = overlapSum d.die (shapeOf sqrt m) := by
+  obtain ⟨hl, ht, hsp, _, hfx, _, _⟩ := C11.initialGrid_spec d d' nr nc hw hh hg
+  obtain ⟨_, ⟨hf0, hs0, _⟩, _⟩ := (C11.initialGrid_ok_iff d nr nc).mp ⟨d', hg⟩
+  have hfe : d'.fixed = [] := by rw [hfx, hf0]
+  have hnet : netFixedRects mods = [] := by rw [← hfix, hf0]
+  have hfpr : (SplitRects.floorplanningRectangles d').1 = d'.ground := by
+    simp [SplitRects.floorplanningRectangles, hsp, hs0]
+  have hnofixed : ∀ m ∈ mods, m.fixed = true → False := by
+    intro m hm hfxm
+    obtain ⟨r, hr⟩ := List.exists_mem_of_ne_nil _ (hrects m hm hfxm)
+    have : r ∈ netFixedRects mods := (mem_netFixedRects mods r).mpr ⟨m, hm, hfxm, hr⟩
+    rw [hnet] at this; simp at this
+  have href : SplitRects.Refines [d.die] (SplitRects.floorplanningRectangles d').1 := by
+    rw [hfpr]; exact ⟨[d'.ground], List.Forall₂.cons ht List.Forall₂.nil, by simp⟩
+  have hc0 : CellsProper ([d.die] ++ ([] : List (Rect α))) := by
+    intro c hc; simp at hc; subst hc; exact ⟨hw, hh⟩
+  have hf0' : FixedOK mods ([d.die] ++ ([] : List (Rect α))) :=
+    ⟨by simp, hrects, fun m hm hfxm => (hnofixed m hm hfxm).elim,
+      fun m1 h1 _ _ f1 => (hnofixed m1 h1 f1).elim⟩
+  rw [hfe] at hA
+  obtain ⟨_, _, r3, r4⟩ := allocated_area_of_refines sqrt εA iz mods [d.die] _ [] A hA hn hc0 hf0' hnet.symm
+    (by intro c hc; simp at hc; subst hc; exact hflag) href
+  refine ⟨by rw [hfpr]; exact hl, hfe, r3, ?_⟩
+  intro m hm
+  have hmf : m.fixed = false := by
+    cases hfm : m.fixed with
+    | false => rfl
+    | true => exact (hnofixed m hm hfm).elim
+  rw [r4 m hm hmf]; simp
+
 /-! ### the initial allocation is a start state of `glbfloor` (bridge to C10) -/
 
 /-- **initial_allocation_is_glb_start**: for a `ValidDie` document (C01), any accepted pick sequence and a compatible
@@ -869,6 +1014,127 @@ example : ∃ picks out, Die.dieModel exSqrt none exDoc (netFixedRects exMods) (
       simp only [exMods, List.mem_cons, List.not_mem_nil, or_false] at hm
       rcases hm with rfl | rfl | rfl <;> simp at hf ⊢)
   exact ⟨picks, out, h1, h2⟩
+
+/-- a concrete accepted pick sequence for `exDoc`: the upper strip, then the lower-left square. -/
+def exPicks : List Die.IRect := [⟨1, 1, 0, 1⟩, ⟨0, 0, 0, 0⟩]
+
+theorem ex_validDie : C01.ValidDie (Die.mkEps exSqrt none exInp.W exInp.H).1.d exInp (netFixedRects exMods) := by
+  constructor
+  · decide +kernel
+  · decide +kernel
+  · decide +kernel
+  · unfold Die.Sep; decide +kernel
+  · unfold Die.Sep; decide +kernel
+
+/-- the Hanan grid of the example (`gather_boundaries` sorts with `List.mergeSort`, which the kernel does not unfold:
+    computed once here by rewriting, everything downstream is `decide +kernel`). -/
+theorem ex_grid : Die.gridOf (Die.mkEps exSqrt none exInp.W exInp.H).1 exInp (netFixedRects exMods) =
+    ([0, 2, 4], [0, 2, 4]) := by
+  have h : (Die.mkEps exSqrt none (4 : ℚ) 4).1.d = 1 / 25000000000 := by decide +kernel
+  simp only [Die.gridOf, Die.gather, Die.occRects, Die.specOf, Die.blockOf, exInp, netFixedRects, exMods, Die.boundsX,
+    Die.boundsY, Die.dieRect, List.filter, List.flatMap, List.map, List.flatten, List.append, List.nil_append,
+    List.cons_append, Rect.xmin, Rect.xmax, Rect.ymin, Rect.ymax, Rect.two]
+  norm_num [Die.sortAsc, List.mergeSort, List.MergeSort.Internal.splitInTwo, List.merge, Die.dedupe, h]
+
+theorem ex_picks_accepted :
+    Die.coverAccept ((Die.gridOf (Die.mkEps exSqrt none exInp.W exInp.H).1 exInp (netFixedRects exMods)).2.length - 1)
+      ((Die.gridOf (Die.mkEps exSqrt none exInp.W exInp.H).1 exInp (netFixedRects exMods)).1.length - 1)
+      (Die.occ (Die.gridOf (Die.mkEps exSqrt none exInp.W exInp.H).1 exInp (netFixedRects exMods)).1
+        (Die.gridOf (Die.mkEps exSqrt none exInp.W exInp.H).1 exInp (netFixedRects exMods)).2
+        (Die.occRects exInp (netFixedRects exMods))) exPicks = true := by
+  simp only [ex_grid]
+  decide +kernel
+
+theorem ex_fixed_have_rects : ∀ m ∈ exMods, m.fixed = true → m.rects ≠ [] := by
+  intro m hm hf
+  simp only [exMods, List.mem_cons, List.not_mem_nil, or_false] at hm
+  rcases hm with rfl | rfl | rfl <;> simp at hf ⊢
+
+/-- **the inner call returns** (kernel-checked): with `exPicks` the die model returns and, on ITS cell lists,
+    `create_initial_allocation` returns the three cells `F ↦ 1` (flagged), upper strip `S ↦ 1/4, q ↦ 1/2`, lower-left
+    square `S ↦ 1/4`, with allocated areas `F = 4, S = 3, q = 4`. -/
+theorem ex_inner_call_returns :
+    (match Die.dieModel exSqrt none exDoc (netFixedRects exMods) (some exPicks) with
+     | .ok (out, _, _) =>
+       (match createInitialAllocation exSqrt 0 false exMods (refinableOf out) out.fixed with
+        | .ok A => A.cells.map (fun c => (c.rect.fixed, c.alloc)) ==
+            [(true, [("F", 1)]), (false, [("S", 1/4), ("q", 1/2)]), (false, [("S", 1/4)])] &&
+            A.stats.map (fun e => (e.1, e.2.1)) == [("F", 4), ("S", 3), ("q", 4)]
+        | .error _ => false)
+     | .error _ => false) = true := by
+  unfold Die.dieModel
+  simp only [show Die.parseDie exDoc = .ok exInp from by with_unfolding_all rfl]
+  unfold Die.dieCore
+  simp only [ex_grid]
+  decide +kernel
+
+/-- `allocated_area_on_die` and `fixed_full_on_die` APPLIED, with the inner call returning: for the die obtained
+    with `exPicks` there is an allocation `A` returned by `create_initial_allocation`, and the conclusions hold of it. -/
+example : ∃ out A, Die.dieModel exSqrt none exDoc (netFixedRects exMods) (some exPicks) =
+      .ok (out, (Die.mkEps exSqrt none exInp.W exInp.H).1, (Die.mkEps exSqrt none exInp.W exInp.H).2) ∧
+    createInitialAllocation exSqrt 0 false exMods (refinableOf out) out.fixed = .ok A ∧
+    (A.cells.filter fun c => !c.rect.fixed).map (·.rect) = refinableOf out ∧
+    (∀ m ∈ exMods, m.fixed = false →
+      allocatedSum A.cells m.name =
+        ((shapeOf exSqrt m).map fun r => (Die.dieRect exInp.W exInp.H).areaOverlap r -
+          ((Die.blockOf exInp ++ netFixedRects exMods).map fun b => b.areaOverlap r).sum).sum) ∧
+    (⟨{ cx := 3, cy := 1, w := 2, h := 2, fixed := true, hard := true }, [("F", 1)], 0⟩ : Cell ℚ) ∈ A.cells := by
+  obtain ⟨out, h1, h2⟩ := allocated_area_on_die exSqrt none exDoc exInp exMods (by with_unfolding_all rfl)
+    (by decide +kernel) (by decide +kernel) ex_validDie exPicks ex_picks_accepted ex_netOK ex_fixed_have_rects
+  obtain ⟨out', h1', h3⟩ := fixed_full_on_die exSqrt none exDoc exInp exMods (by with_unfolding_all rfl)
+    (by decide +kernel) (by decide +kernel) ex_validDie exPicks ex_picks_accepted ex_netOK ex_fixed_have_rects
+  have : out' = out := by
+    rw [h1] at h1'; simp only [Except.ok.injEq, Prod.mk.injEq] at h1'; exact h1'.1.symm
+  subst this
+  have hret := ex_inner_call_returns
+  rw [h1] at hret
+  simp only at hret
+  cases hA : createInitialAllocation exSqrt 0 false exMods (refinableOf out') out'.fixed with
+  | error e => rw [hA] at hret; simp at hret
+  | ok A =>
+    obtain ⟨a1, a2⟩ := h2 0 false A hA
+    have hF := (h3 0 false A hA ⟨"F", true, [{ cx := 3, cy := 1, w := 2, h := 2, fixed := true, hard := true }], [4], none⟩
+      (by simp [exMods]) rfl).1 _ (List.mem_singleton.mpr rfl)
+    exact ⟨out', A, h1, hA, a1, a2, hF⟩
+
+/-- the Glb view of the example netlist's fixed module: same name and rectangle, centre = centroid `(3, 1)`. -/
+def exGmods : List (Glb.Module ℚ) :=
+  [⟨"F", true, true, false, 3, 1, [{ cx := 3, cy := 1, w := 2, h := 2, fixed := true, hard := true }]⟩]
+
+theorem ex_glbModsOf : GlbModsOf exMods exGmods := by
+  intro f hf hfx
+  simp only [exGmods, List.mem_singleton] at hf
+  subst hf
+  refine ⟨⟨"F", true, [{ cx := 3, cy := 1, w := 2, h := 2, fixed := true, hard := true }], [4], none⟩,
+    by simp [exMods], rfl, rfl, rfl, ?_, ?_⟩ <;>
+  norm_num [Glb.momentX, Glb.momentY, Glb.totalArea, Rect.area]
+
+/-- `initial_allocation_is_glb_start` APPLIED with all its hypotheses on the concrete die + netlist at `ℚ`, the
+    inner call returning: the four start hypotheses of `glbfloor_correct` hold for `init = ⟨a, ⟨0, 0⟩, exGmods⟩`. -/
+example : ∃ out A a, Die.dieModel exSqrt none exDoc (netFixedRects exMods) (some exPicks) =
+      .ok (out, (Die.mkEps exSqrt none exInp.W exInp.H).1, (Die.mkEps exSqrt none exInp.W exInp.H).2) ∧
+    createInitialAllocation exSqrt 0 false exMods (refinableOf out) out.fixed = .ok A ∧
+    a.cells = A.cells.map toAllocCell ∧
+    Alloc.ValidAlloc (Glb.AState.mk a ⟨0, 0⟩ exGmods).eps (Glb.AState.mk a ⟨0, 0⟩ exGmods).alloc ∧
+    (∀ c ∈ (Glb.AState.mk a ⟨0, 0⟩ exGmods).alloc.cells, c.rect.isInside (Die.dieRect exInp.W exInp.H) = true) ∧
+    (∀ f ∈ (Glb.AState.mk a ⟨0, 0⟩ exGmods).mods, f.fixed = true →
+      Glb.FixedOwn ((Glb.AState.mk a ⟨0, 0⟩ exGmods).alloc.cells.map Glb.ofCell) f) ∧
+    (∀ f ∈ (Glb.AState.mk a ⟨0, 0⟩ exGmods).mods, f.fixed = true →
+      (Die.dieRect exInp.W exInp.H).xmin ≤ f.cx ∧ f.cx ≤ (Die.dieRect exInp.W exInp.H).xmax ∧
+      (Die.dieRect exInp.W exInp.H).ymin ≤ f.cy ∧ f.cy ≤ (Die.dieRect exInp.W exInp.H).ymax) := by
+  obtain ⟨out, h1, h2⟩ := initial_allocation_is_glb_start (⟨0, 0, exSqrt⟩ : Alloc.Env ℚ) (⟨0, 0⟩ : Alloc.Eps ℚ)
+    (le_refl _) (le_refl _) exSqrt none exDoc exInp exMods (by with_unfolding_all rfl)
+    (by decide +kernel) (by decide +kernel) ex_validDie exPicks ex_picks_accepted ex_netOK ex_fixed_have_rects
+    (by decide +kernel)
+  have hret := ex_inner_call_returns
+  rw [h1] at hret
+  simp only at hret
+  cases hA : createInitialAllocation exSqrt 0 false exMods (refinableOf out) out.fixed with
+  | error e => rw [hA] at hret; simp at hret
+  | ok A =>
+    obtain ⟨a, _, ha2, ha3⟩ := h2 A hA
+    obtain ⟨g1, g2, g3, g4⟩ := ha3 exGmods ex_glbModsOf
+    exact ⟨out, A, a, h1, hA, ha2, g1, g2, g3, g4⟩
 
 /-- the second entry point on the same cells given as unflagged descriptors with depths 2, 1, 3: the fixed module's
     cell is flagged and gets depth 0, the others keep their depth. -/
